@@ -44,8 +44,13 @@ def verdict (impl model : String) (h : Option String) (tag : String) : String :=
   let hs := if impl.startsWith "panic:" then "H0:panic" else match h with | none => "H1" | some cl => s!"H0:{cl}"
   if impl = model then s!"EQ {hs} {tag}" else s!"NE {hs} {model} {tag}"
 
-/-- `pix.gfx type W H tw th data | A B C P` -/
-def gfxStep (it : List String) (impl t W H tw th data : String) : Option String := do
+def hexOpt : Option (Array Byte) → String
+  | some a => hexBV a
+  | none => "panic"
+
+/-- the four results `A B C P` of the conversions of one graphics state: the model's tokens, the Spec verdict on the
+implementation's four tokens, the coverage tag -/
+def gfxEval (t W H tw th data : String) : Option (List String × (List String → Option String) × String) := do
   let t ← t.toNat?; let W ← W.toNat?; let H ← H.toNat?; let tw ← tw.toNat?; let th ← th.toNat?
   let data ← unhex data
   let fmt ← fmtOf t
@@ -59,7 +64,7 @@ def gfxStep (it : List String) (impl t W H tw th data : String) : Option String 
   let P := match gfxToPngImage fmt W H d with
     | none => "panic"
     | some i => (match pngCodec i with | some i => imgTok i | none => "nopng")
-  let hh := match it with
+  let hh := fun (it : List String) => match it with
     | [a, b, c, p] => (match parseObs b, parseObs c with
       | some b, some c =>
         let ao := if a = "none" then some none else (parseObs a).map some
@@ -72,7 +77,76 @@ def gfxStep (it : List String) (impl t W H tw th data : String) : Option String 
     | _ => some "parse"
   let need := match fmt with | .mono => (W + 7) / 8 * H | .rgb => 2 * W * H | .gray => (W * H + 1) / 2
   let lt := if data.size < need then "short" else if data.size = need then "exact" else "long"
-  pure (verdict impl s!"{A} {B} {C} {P}" hh s!"B:gfx{t}{lt}")
+  pure ([A, B, C, P], hh, s!"B:gfx{t}{lt}")
+
+/-- `pix.gfx type W H tw th data | A B C P` -/
+def gfxStep (it : List String) (impl t W H tw th data : String) : Option String := do
+  let (m, hh, tag) ← gfxEval t W H tw th data
+  pure (verdict impl (" ".intercalate m) (hh it) tag)
+
+/-! ## `pix.seq`: several conversions in a row, the caller keeping every result
+
+`pix.seq par step…`: the steps one after the other (`par` = 1: two goroutines run the same sequence at the same time);
+every result is printed right after its own call and once more after the last call.  The conversions are functions of
+their arguments (`Model/Pix.lean` has no state between calls), so the model prints the same tokens both times.  Spec:
+the clauses of the step on the tokens printed right away, and what is printed at the end must be the same tokens
+(`retained`: a result handed to the caller is not changed by a later call).
+`G:type:W:H:tw:th:data` → `A B C P` as in `pix.gfx`;
+`M:same:w:h:pc:bc:inv:bits` → `pixel16 bckg16 rgb gray IMG bytes` (CreateFromBytes with exactly the bytes needed, both
+colours set, both exports, `ConvertToImage(inv)`, `GetImgSlice`; `same` = on the object of the previous `M` step — every
+field the step reads is set by the step, so the model does not need it). -/
+
+def monoEval (w h pc bc inv bits : String) : Option (List String × (List String → Option String) × String) := do
+  let w ← w.toNat?; let h ← h.toNat?; let pc ← pc.toNat?; let bc ← bc.toNat?; let inv ← parseBool inv; let bits ← unhex bits
+  let c := canvasOf w h bits
+  let pcol := color565 pc; let bcol := color565 bc
+  let im := toImage c inv
+  let hh := fun (it : List String) => match it with
+    | [ip, ib, irgb, igray, _, _] => (match ip.toNat?, ib.toNat?, unhex irgb, unhex igray with
+      | some ip, some ib, some irgb, some igray =>
+        (match Spec.Pix.checkColor pc ip, Spec.Pix.checkColor bc ib with
+         | none, none => Spec.Pix.checkExport w h (bitAt ((w + 7) / 8) bits) ip ib irgb.size (byteAt irgb) igray.size (byteAt igray)
+         | some e, _ => some e
+         | _, some e => some e)
+      | _, _, _, _ => some "parse")
+    | _ => some "parse"
+  pure ([toString pcol, toString bcol, hexOpt (sliceRGB c pcol bcol), hexOpt (sliceGray c pcol bcol), imgTok? im, hexBV c.bytes], hh, "B:seqM")
+
+def seqEval (tok : String) : Option (List String × (List String → Option String) × String) :=
+  match tok.splitOn ":" with
+  | ["G", t, W, H, tw, th, data] => do
+    let (m, hh, _) ← gfxEval t W H tw th data
+    pure (m, hh, s!"B:seqG{t}")
+  | ["M", same, w, h, pc, bc, inv, bits] => do
+    let _ ← parseBool same
+    monoEval w h pc bc inv bits
+  | _ => none
+
+/-- the Spec clauses step by step on the tokens printed right after the call (`imm`), and `retained`: the tokens printed at
+the end (`late`) are the same -/
+def seqSpec (k : Nat) : List (List String × (List String → Option String) × String) → List String → List String → Option String
+  | [], [], [] => none
+  | [], _, _ => some "parse"
+  | (m, sp, _) :: rest, imm, late =>
+    let n := m.length
+    let a := imm.take n
+    let b := late.take n
+    if a.length ≠ n ∨ b.length ≠ n then some "parse" else
+    match sp a with
+    | some e => some s!"{e}@call{k}"
+    | none => if a ≠ b then some s!"retained@call{k}" else seqSpec (k + 1) rest (imm.drop n) (late.drop n)
+
+def seqStep (it : List String) (impl : String) (args : List String) : Option String :=
+  match args with
+  | par :: steps => do
+    let par ← parseBool par
+    let evs ← steps.mapM seqEval
+    let once := evs.foldr (fun e acc => e.1 ++ acc) []
+    let model := " ".intercalate (once ++ once)
+    let tags := (evs.map (fun e => e.2.2)).eraseDups
+    pure (verdict impl model (seqSpec 0 evs (it.take once.length) (it.drop once.length))
+      s!"B:seq{if par then "Par" else ""} {" ".intercalate tags}")
+  | [] => none
 
 /-! ## `pix.obj`: ONE mono image object used more than once
 
@@ -87,9 +161,6 @@ colour; an export uses the colours the object's fields show **when the export is
 image-object round trip reproduces the visible pixels whatever the destination held before. -/
 
 def canvTok (c : Canvas) : String := s!"{c.geo.W}:{c.geo.H}:{hexBV c.bytes}"
-def hexOpt : Option (Array Byte) → String
-  | some a => hexBV a
-  | none => "panic"
 
 /-- one token of a `pix.obj` record → the call it denotes (`Model/Pix.lean` `ObjCall`) -/
 def parseObjCall (tok : String) : Option ObjCall :=
@@ -241,6 +312,7 @@ def step (cmd : String) (args : List String) (impl : String) : String :=
       let _ ← parseBool xyo; let _ ← X.toNat?; let _ ← Y.toNat?
       gfxStep it impl t W H tw th data
     | "pix.obj", ops => objStep it impl ops
+    | "pix.seq", args => seqStep it impl args
     | _, _ => none
   r.getD "ERR bad-record"
 
